@@ -20,6 +20,7 @@ import (
 	"strconv"
 	"strings"
 	"sync"
+	"sync/atomic"
 	"time"
 
 	"golang.org/x/crypto/argon2"
@@ -434,6 +435,47 @@ func c20RunSessions(b core.Batch, r *core.Recorder) {
 			if m.sess != nil {
 				m.sess.Destroy()
 			}
+		}
+	}
+	// many sessions inside the extension threshold, each used by several requests at the same moment: the first
+	// uses all want to extend it (feeds the race detector; every answer must be 200)
+	{
+		var swg sync.WaitGroup
+		var refused, transportErrors atomic.Int64
+		var firstRefusal atomic.Value
+		for k := 0; k < b.Int("aged_sessions", 400); k++ {
+			se := auth.CreateSession(1)
+			se.ExpiresAt = time.Now().Add(time.Duration(1+k%9) * time.Minute)
+			start := make(chan struct{})
+			for g := 0; g < 4; g++ {
+				swg.Add(1)
+				go func() {
+					defer swg.Done()
+					<-start
+					resp := s.do("GET", "/api/auth/me", c20sidCookie(se.ID), "", nil)
+					switch {
+					case resp.Err != nil:
+						transportErrors.Add(1) // the client could not complete the exchange: nothing to judge
+					case resp.Status != 200:
+						if refused.Add(1) == 1 {
+							firstRefusal.Store(fmt.Sprintf("status %d body %q", resp.Status, core.Trunc(resp.Body, 200)))
+						}
+					}
+				}()
+			}
+			close(start)
+			if k%8 == 7 {
+				swg.Wait() // at most 8 sessions (32 requests) at a time: the point is the overlap within one session
+			}
+		}
+		swg.Wait()
+		if n := transportErrors.Load(); n > 0 {
+			r.NotJudged(fmt.Sprintf("aged-session-requests-with-transport-errors:%d", n))
+		}
+		r.Eval(1)
+		r.Count("concurrent_first_uses_of_aged_sessions", int64(b.Int("aged_sessions", 400)*4))
+		if refused.Load() > 0 {
+			r.Violation("C20", "C20:live-session-refused:concurrent-extension", fmt.Sprintf("%d of %d simultaneous requests with a live session close to its expiry were refused (first: %v)", refused.Load(), b.Int("aged_sessions", 400)*4, firstRefusal.Load()), map[string]any{"id": "aged-concurrent"}, nil)
 		}
 	}
 	// concurrent use of live sessions (feeds the race detector; answers must stay correct)
